@@ -17,6 +17,7 @@ def main(ids):
         wave3 = wid[0] == 'E'
         wave4 = wid[0] == 'F'
         wave5 = wid[0] == 'G'
+        wave6 = wid[0] == 'H'
         for letter in 'AB':
             diff = os.path.join(out, letter + '.diff'); demo = os.path.join(out, letter + '_demo.py')
             if not (os.path.exists(diff) and os.path.exists(demo)):
@@ -41,7 +42,7 @@ def main(ids):
                 print(pid, letter, 'clean-demo rc=%d tests=%r mutated-demo rc=%d -> %s' % (r0.returncode, tail, r1.returncode, 'KEEP' if ok else 'REJECT'))
                 if not ok:
                     continue
-                d = os.path.join(VERIF, 'seeded', '%s-%s' % (pid, ({'A': 'C', 'B': 'D'}[letter] if wave2 else ({'A': 'E', 'B': 'F'}[letter] if wave3 else ({'A': 'G', 'B': 'H'}[letter] if wave4 else ({'A': 'I', 'B': 'J'}[letter] if wave5 else letter)))))); os.makedirs(d, exist_ok=True)
+                d = os.path.join(VERIF, 'seeded', '%s-%s' % (pid, ({'A': 'C', 'B': 'D'}[letter] if wave2 else ({'A': 'E', 'B': 'F'}[letter] if wave3 else ({'A': 'G', 'B': 'H'}[letter] if wave4 else ({'A': 'I', 'B': 'J'}[letter] if wave5 else ({'A': 'K', 'B': 'L'}[letter] if wave6 else letter))))))); os.makedirs(d, exist_ok=True)
                 shutil.copy(diff, os.path.join(d, 'patch.diff')); open(os.path.join(d, 'demo.py'), 'w').write(src)
                 notes = open(os.path.join(out, 'NOTES.md')).read() if os.path.exists(os.path.join(out, 'NOTES.md')) else ''
                 open(os.path.join(d, 'NOTES.md'), 'w').write(notes)
